@@ -140,6 +140,61 @@ def _holds_index(ctx, inp, out):
 
 
 @guarded
+def _impl_index_dim(inp):
+    """lookup on an axis built by the library's own range constructors (carries the `step` attribute)"""
+    import numpy as np
+    import xarray as xr
+    from soundevent import arrays
+    r = inp["range"]
+    start, stop, step = f(r["start"]), f(r["stop"]), f(r["step"])
+    if r["kind"] == "time":
+        var, dim = arrays.create_time_range(start, stop, step=step), "time"
+    elif r["kind"] == "frequency":
+        var, dim = arrays.create_frequency_range(start, stop, step), "frequency"
+    else:
+        var, dim = arrays.create_range_dim("x", start, stop, step=step), "x"
+    coords = [float(c) for c in np.asarray(var.data)]
+    arr = xr.DataArray(np.zeros(len(coords)), dims=[dim], coords={dim: var})
+    n = len(coords)
+    out = []
+    for i in range(n):
+        qs = [coords[i], ulp_up(coords[i]), ulp_down(coords[i])]
+        if i + 1 < n:
+            qs.append(coords[i] + (coords[i + 1] - coords[i]) / 2)
+        for q in qs:
+            if not (coords[0] <= q <= coords[-1]):
+                continue
+            try:
+                res = arrays.get_coord_index(arr, dim, q, raise_error=True)
+                o = {"val": int(res)} if int(res) == res else {"raise": "crash:not-an-int"}
+            except Exception as e:  # noqa: BLE001
+                from ..core import canon_exc
+                o = canon_exc(e)
+            out.append([rat(q), o])
+    return {"val": {"coords": rats(coords), "lookups": out}}
+
+
+def _holds_index_dim(ctx, inp, out):
+    if is_err(out):
+        return "building the axis or the array failed: %r" % (out,)
+    coords = out["val"]["coords"]
+    reqs = []
+    for q, o in out["val"]["lookups"]:
+        if not is_err(o) and o["val"] < 0:
+            return f"lookup of {q} returned a negative index"
+        if is_err(o) and o["raise"].startswith("crash"):
+            o = {"raise": "index"}
+        reqs.append({"coords": coords, "v": q, "raise": True, "out": o})
+    oks = ctx.model_many("holds_index", reqs)
+    for r, ok in zip(reqs, oks):
+        if not ok:
+            fr = frac(r["v"])
+            return (f"lookup statement of C16 fails on an axis built by the range constructor: query {float(fr)!r} "
+                    f"-> {r['out']}")
+    return None
+
+
+@guarded
 def _impl_set(inp):
     import numpy as np
     import xarray as xr
@@ -172,6 +227,9 @@ OPS = {
                      to_model=lambda inp: {}, compare=lambda inp, io, mo: None, mode="tolerance"),
     "coord_index": Op("coord_index", _impl_index, holds=_holds_index,
                       to_model=lambda i: {"coords": i["coords"], "v": i["v"], "raise": i["raise"]}),
+    "coord_index_dim": Op("coord_index_dim", _impl_index_dim, holds=_holds_index_dim, model_op="noop",
+                          compare=lambda inp, io, mo: None,
+                          nontrivial=lambda inp, out: not is_err(out) and len(out["val"]["lookups"]) > 0),
     "set_value": Op("set_value", _impl_set, to_model=_set_to_model),
 }
 
@@ -294,6 +352,20 @@ def _index_cases(ctx):
                 yield inp
 
 
+def _index_dim_cases(ctx):
+    """axes as the library builds them (with a `step` attribute), non-representable steps: every coordinate,
+    both float neighbours and every midpoint is looked up"""
+    rng = ctx.rng
+    steps = [0.1, 0.01, 1 / 3, 1 / 44100, 0.004, 0.25, 1 / 22050, 0.3, 1e-3]
+    for step in steps:
+        for start in (0.0, 0.3, rng.choice([1.7, 12.34, 100.001])):
+            n = ctx.budget(60, 400) + rng.randint(0, 7)
+            for kind in ("range", "time", "frequency"):
+                if kind != "range" and (start != 0.0 and rng.random() < 0.5):
+                    continue
+                yield {"range": {"kind": kind, "start": rat(start), "stop": rat(start + n * step), "step": rat(step)}}
+
+
 def _set_cases(ctx):
     rng = ctx.rng
     full = ctx.thorough()
@@ -370,6 +442,13 @@ def _stage_index(ctx):
                                      "ends, raise and clamp")
 
 
+def _stage_index_dim(ctx):
+    ctx.run_cases(OPS["coord_index_dim"], _index_dim_cases(ctx))
+    ctx.exhaustive["coord_index_dim"] = ("axes built by create_range_dim / create_time_range / create_frequency_range with "
+                                         "steps 0.1, 0.01, 1/3, 1/44100, ...: every coordinate, its two float neighbours and "
+                                         "every midpoint looked up, judged by the Lean index statement")
+
+
 def _stage_set(ctx):
     ctx.run_cases(OPS["set_value"], _set_cases(ctx))
     ctx.exhaustive["set_value"] = ("all shapes with 1-3 axes of 1-3 points, every subset of queried axes, every addressed "
@@ -381,10 +460,12 @@ def run(ctx):
     ctx.stage("range-exact", _stage_ranges, ctx)
     ctx.stage("range-free-monitor", lambda: ctx.run_cases(OPS["range_free"], _range_free_cases(ctx)))
     ctx.stage("coord-index", _stage_index, ctx)
+    ctx.stage("coord-index-on-range-dims", _stage_index_dim, ctx)
     ctx.stage("set-value", _stage_set, ctx)
 
 
 def search(ctx, failures):
     ctx.run_cases(OPS["range_dim"], _range_random_cases(ctx.rng, 5000))
     ctx.run_cases(OPS["coord_index"], _index_cases(ctx))
+    ctx.run_cases(OPS["coord_index_dim"], _index_dim_cases(ctx))
     ctx.run_cases(OPS["set_value"], _set_cases(ctx))
